@@ -1,4 +1,5 @@
-(* C03 — simulation between FrameExec (Model/ScopeFrameExec.v) and the reference interpreter
+(* (second round: fragment extended with loop filters and with-targets)
+   C03 — simulation between FrameExec (Model/ScopeFrameExec.v) and the reference interpreter
    SpecStmt (Spec/ScopeSpecStmt.v) for the core fragment. *)
 From Coq Require Import List NArith ZArith Bool Arith Lia.
 Import ListNotations.
@@ -325,7 +326,7 @@ Section Sim.
     i_wf : wfchain fs;
     i_rel : chain_rel (rref st) (s_scopes ss) fs env;
     i_heap : f_heap st = s_heap ss;
-    i_root : f_below st = [] /\ f_chain st = [];
+    i_root : forall i, In i (f_chain st) -> i < length (f_below st);   (* static links point below *)
     i_valid : forall i, In i env -> i < length (s_scopes ss);
     i_cvars : f_cvars st = nth 0 (s_scopes ss) [];
     i_exp : f_exported st = map fst (filter pub (nth 0 (s_scopes ss) []));
@@ -546,6 +547,78 @@ Section Sim.
     - apply Hc0.
   Qed.
 
+  (* the same, when the parameters are written AFTER the frame is entered (with-statement):
+     any later state that kept the non-parameter variables of the new level *)
+  Lemma enter_ok2 : forall fs st env ss ps body,
+    let S' := mk_frame (syms_of fs) ps body in
+    let V' := onames_l body in
+    Inv fs st env ss -> In 0 env ->
+    incl ps V0 -> incl V' V0 -> (match fs with [] => True | (_, V) :: _ => incl V' V end) ->
+    gok (S' :: syms_of fs) ->
+    exists st', enter_frame pynorm d st S' = Ok st' /\ same_misc st st' /\
+      (forall id, fst id <> length fs -> rref st' id = rref st id) /\
+      forall stn sc,
+        same_misc st' stn ->
+        (forall id, fst id <> length fs -> rref stn id = rref st' id) ->
+        (forall y, In y V0 -> ~ In y ps -> rref stn (length fs, y) = rref st' (length fs, y)) ->
+        (forall x v, In x V' -> dget N.eqb x sc = Some v -> In x ps /\ rref stn (length fs, x) = Some (Some v)) ->
+        (forall x, In x V' -> In x ps -> dget N.eqb x sc <> None) ->
+        Inv ((S', V') :: fs) stn (length (s_scopes ss) :: env) (snd (new_scope ss sc)).
+  Proof.
+    intros fs st env ss ps body S' V' I Hz Hps HV0 HVi Hg.
+    destruct (mk_frame_ok (syms_of fs) ps body) as [WS [Lv0 [Hpr _]]]. fold S' in WS, Lv0, Hpr.
+    pose proof (i_wf _ _ _ _ I) as Wf.
+    assert (Lv : s_level S' = length fs) by (rewrite Lv0; apply sym_new_level; exact Wf).
+    assert (HrefV : forall x, hasref S' x -> In x ps \/ In x V') by (intros x; apply mk_frame_refs).
+    assert (HchainV : forall x, In x V' -> Forall (fun f => In x (snd f)) fs).
+    { intros x Hx. destruct fs as [|[S V] P]; [constructor|]. apply wfchain_incl; [exact Wf|]. apply HVi. exact Hx. }
+    assert (Hz' : 0 < length (s_scopes ss)) by (apply (i_valid _ _ _ _ I); exact Hz).
+    assert (Hcv : forall x, lookup_env (s_scopes ss) env x = None -> dget N.eqb x (f_cvars st) = None).
+    { intros x Hn. rewrite (i_cvars _ _ _ _ I). apply (lookup_env_none_in env _ x 0 Hn Hz). }
+    destruct (enter_loads_spec (length fs) (s_loads S') st (wf_nodup _ _ _ WS)) as [st' [E [M [A [B C]]]]].
+    { intros id l Hin. destruct (wf_keys _ _ _ WS id l Hin) as [x [-> [Hr L]]]. cbn [fst snd]. split; [exact Lv|].
+      split; [destruct (HrefV x Hr); auto|].
+      intros o ->. unfold lok in L. destruct (nmem x ps) eqn:Ep; [discriminate|].
+      assert (HxV : In x V'). { destruct (HrefV x Hr) as [Hc|Hc]; [apply nmem_In in Hc; congruence|exact Hc]. }
+      destruct (find_ref_level fs x o Wf L) as [Ho _]. split; [lia|].
+      destruct (lookup_agree fs env (rref st) (s_scopes ss) x Wf (i_rel _ _ _ _ I) (HchainV x HxV)) as [L1 _].
+      destruct (L1 o L) as [ov [R1 _]]. congruence. }
+    exists st'. split; [exact E|]. split; [exact M|]. split; [exact A|].
+    intros stn sc Mn An Bn Hpar Hbound.
+    assert (Hold : forall i, In i env -> nth i (s_scopes ss ++ [sc]) [] = nth i (s_scopes ss) []).
+    { intros i Hi. apply nth_app_old. apply (i_valid _ _ _ _ I). exact Hi. }
+    destruct M as [M1 [M2 [M3 [M4 M5]]]]. destruct Mn as [N1 [N2 [N3 [N4 N5]]]].
+    constructor; unfold new_scope; cbn [snd s_scopes s_heap].
+    - cbn [wfchain]. split; [exists ps; exact WS|]. split; [exact Lv|]. split; [exact HV0|]. split; [|exact Wf].
+      destruct fs as [|[S V] P]; [trivial|exact HVi].
+    - cbn [chain_rel]. rewrite nth_app_new. split; [split|].
+      + intros x v Hx Es. destruct (Hpar x v Hx Es) as [Hp Hrd]. split; [apply Hpr; exact Hp|]. rewrite Lv. exact Hrd.
+      + intros x Hx Hr Es.
+        assert (Hnp : nmem x ps = false).
+        { apply nmem_false. intros Hp. apply (Hbound x Hx Hp). exact Es. }
+        destruct (WF_load ps _ S' x WS Hr) as [l [Dl L]]. unfold lok in L. rewrite Hnp in L.
+        pose proof (C _ _ (dget_In ident_eqb ident_eqb_eq _ _ _ Dl)) as Hc. rewrite Lv in *.
+        rewrite <- (Bn x (HV0 x Hx) (proj1 (nmem_false x ps) Hnp)) in Hc.
+        destruct (lookup_agree fs env (rref st) (s_scopes ss) x Wf (i_rel _ _ _ _ I) (HchainV x Hx)) as [L1 L2].
+        assert (Hs : forall w, w = slkv (s_scopes ss) env x -> w = slkv (s_scopes ss ++ [sc]) env x).
+        { intros w ->. symmetry. apply slkv_ext. exact Hold. }
+        destruct l as [|y|o|]; [contradiction| | |].
+        * destruct L as [-> Fn]. exists (resolve d st x). split; [exact Hc|]. apply Hs.
+          pose proof (L2 Fn) as Hn. unfold slkv. rewrite Hn. apply resolve_ctx. apply Hcv. exact Hn.
+        * destruct (L1 o L) as [ov [R1 R2]]. exists ov. split; [cbn [load_val] in Hc; congruence|apply Hs; exact R2].
+        * exists None. split; [exact Hc|]. apply Hs. pose proof (L2 L) as Hn. unfold slkv. rewrite Hn.
+          destruct (Hg x) as [G1 G2]. { rewrite <- Lv in Dl. apply (undef_in S' _ Dl). }
+          unfold ctxv. rewrite G1, G2. reflexivity.
+      + apply (chain_rel_scopes fs env _ (s_scopes ss)); [exact Hold|].
+        apply (chain_rel_ext fs env (rref st)); [exact Wf| |apply I]. intros id Hid. rewrite An, A; [reflexivity|lia|lia].
+    - rewrite N5, M5. apply I.
+    - rewrite N1, N2, M1, M2. apply I.
+    - intros i [<-|Hi]; rewrite app_length; cbn [length]; [lia|]. pose proof (i_valid _ _ _ _ I i Hi). lia.
+    - rewrite N3, M3, (nth_app_old _ _ 0 Hz'). apply I.
+    - rewrite N4, M4, (nth_app_old _ _ 0 Hz'). apply I.
+    - rewrite (nth_app_old _ _ 0 Hz'). apply I.
+  Qed.
+
   (* ---------------------------------------------------------- find_undeclared *)
   Lemma undecl_none : forall l x, (forall c, ~ In (x, c) l) -> undecl_go [x] [] l = [].
   Proof.
@@ -592,7 +665,7 @@ Section Sim.
   Qed.
 
   (* ---------------------------------------------------------- sub-terms *)
-  Lemma core_go : forall l, (fix go (l : list stmt) : bool := match l with [] => true | x :: r => core_stmt x && go r end) l = core_prog l.
+  Lemma core2_go : forall l, (fix go (l : list stmt) : bool := match l with [] => true | x :: r => core2_stmt x && go r end) l = core2_prog l.
   Proof. induction l as [|x r IH]; cbn; [reflexivity|rewrite IH; reflexivity]. Qed.
   Lemma frames_go : forall ch l, (fix go (chain : list symbols) (l : list stmt) : list (list symbols) :=
       match l with [] => [] | x :: r => frames_stmt oid chain x ++ go chain r end) ch l = frames_list oid ch l.
@@ -601,7 +674,7 @@ Section Sim.
   Definition okocc (l : list stmt) : Prop := Forall (fun oc => occ_ok oc = true) (occs_l l).
 
   Record Pre (S : symbols) (V : list name) (P : frames) (l : list stmt) : Prop := mkPre {
-    p_core : core_prog l = true;
+    p_core : core2_prog l = true;
     p_names : incl (onames_l l) V;
     p_occ : okocc l;
     p_cov : covers_l (syms_of P) S l;
@@ -610,12 +683,12 @@ Section Sim.
 
   Lemma Pre_cons : forall S V P s r, Pre S V P (s :: r) -> Pre S V P [s] /\ Pre S V P r.
   Proof.
-    intros S V P s r [C N O Cv G]. cbn [core_prog] in C. apply andb_true_iff in C. destruct C as [C1 C2].
+    intros S V P s r [C N O Cv G]. cbn [core2_prog] in C. apply andb_true_iff in C. destruct C as [C1 C2].
     unfold onames_l in N. rewrite occs_l_cons, map_app in N. unfold okocc in O. rewrite occs_l_cons in O.
     apply Forall_app in O. destruct O as [O1 O2]. destruct Cv as [Cv1 Cv2].
     cbn [frames_list] in G. apply Forall_app in G. destruct G as [G1 G2].
     split; constructor; auto.
-    - cbn [core_prog]. rewrite C1. reflexivity.
+    - cbn [core2_prog]. rewrite C1. reflexivity.
     - unfold onames_l. cbn [occs_l flat_map]. rewrite app_nil_r. intros x Hx. apply N. apply in_or_app. auto.
     - unfold okocc. cbn [occs_l flat_map]. rewrite app_nil_r. exact O1.
     - cbn. auto.
@@ -719,7 +792,7 @@ Section Sim.
       (forall x v, In x V' -> dget N.eqb x sc = Some v -> In x ps /\ rref st (length fs, x) = Some (Some v)) ->
       (forall x, In x V' -> In x ps -> dget N.eqb x sc <> None) ->
       gok (S' :: syms_of fs) ->
-      core_prog body = true -> okocc body -> Forall gok (frames_list oid (S' :: syms_of fs) body) ->
+      core2_prog body = true -> okocc body -> Forall gok (frames_list oid (S' :: syms_of fs) body) ->
       match enter_frame pynorm d st S' with
       | Err _ => False
       | Ok st1 =>
@@ -748,10 +821,10 @@ Section Sim.
     Lemma ld_fst : forall xs : list name, map fst (map (fun x : name => (x, CLoad)) xs) = xs.
     Proof. intros. rewrite map_map. cbn. apply map_id. Qed.
     Lemma pre_one : forall Sy V P s, Pre Sy V P [s] ->
-      core_stmt s = true /\ incl (onames s) V /\ Forall (fun oc => occ_ok oc = true) (occs s) /\
+      core2_stmt s = true /\ incl (onames s) V /\ Forall (fun oc => occ_ok oc = true) (occs s) /\
       covers (syms_of P) Sy s /\ Forall gok (frames_stmt oid (Sy :: syms_of P) s).
     Proof.
-      intros Sy V P s [C N O Cv G]. cbn [core_prog] in C. rewrite andb_true_r in C.
+      intros Sy V P s [C N O Cv G]. cbn [core2_prog] in C. rewrite andb_true_r in C.
       unfold onames_l in N. cbn [occs_l flat_map] in N. rewrite app_nil_r in N.
       unfold okocc in O. cbn [occs_l flat_map] in O. rewrite app_nil_r in O.
       destruct Cv as [Cv _]. cbn [frames_list] in G. rewrite app_nil_r in G. auto.
@@ -876,10 +949,10 @@ Section Sim.
     (* facts about the body of a scoping construct *)
     Lemma body_facts : forall Sy V P s body (mk : list symbols -> symbols),
       Pre Sy V P [s] ->
-      core_stmt s = core_prog body -> occs s = occs_l body \/ (exists pre, occs s = pre ++ occs_l body) ->
+      core2_stmt s = core2_prog body -> occs s = occs_l body \/ (exists pre, occs s = pre ++ occs_l body) ->
       frames_stmt oid (Sy :: syms_of P) s =
         (mk (Sy :: syms_of P) :: Sy :: syms_of P) :: frames_list oid (mk (Sy :: syms_of P) :: Sy :: syms_of P) body ->
-      core_prog body = true /\ okocc body /\ incl (onames_l body) V /\
+      core2_prog body = true /\ okocc body /\ incl (onames_l body) V /\
       gok (mk (Sy :: syms_of P) :: Sy :: syms_of P) /\
       Forall gok (frames_list oid (mk (Sy :: syms_of P) :: Sy :: syms_of P) body).
     Proof.
@@ -906,7 +979,7 @@ Section Sim.
     Proof.
       intros Sy V P fr st env ss k body I He Pr.
       destruct (body_facts Sy V P (SFilter k body) body (fun ch => frame_body oid ch body) Pr) as [Hc [Ho [HV [Hg Hgs]]]].
-      { cbn [core_stmt]. apply core_go. } { left. cbn [occs]. apply occs_go. }
+      { cbn [core2_stmt]. apply core2_go. } { left. cbn [occs]. apply occs_go. }
       { cbn [frames_stmt]. rewrite frames_go. reflexivity. }
       assert (Hp0 : forall (x : name) (v : value), In x (onames_l body) -> dget N.eqb x (@nil (name * value)) = Some v ->
                       In x [] /\ rref st (length ((Sy, V) :: P), x) = Some (Some v)) by (intros x v _ H; discriminate).
@@ -938,7 +1011,7 @@ Section Sim.
     Proof.
       intros Sy V P fr st env ss body I He Pr.
       destruct (body_facts Sy V P (SWith [] body) body (fun ch => frame_with oid ch [] body) Pr) as [Hc [Ho [HV [Hg Hgs]]]].
-      { cbn [core_stmt]. apply core_go. } { left. cbn [occs map app exprs_names flat_map]. apply occs_go. }
+      { cbn [core2_stmt]. apply core2_go. } { left. cbn [occs map app exprs_names flat_map]. apply occs_go. }
       { cbn [frames_stmt map]. rewrite frames_go. reflexivity. }
       assert (Hp0 : forall (x : name) (v : value), In x (onames_l body) -> dget N.eqb x (@nil (name * value)) = Some v ->
                       In x [] /\ rref st (length ((Sy, V) :: P), x) = Some (Some v)) by (intros x v _ H; discriminate).
@@ -969,7 +1042,7 @@ Section Sim.
     Proof.
       intros Sy V P fr st env ss x body I He Pr.
       destruct (body_facts Sy V P (SSetBlock x body) body (fun ch => frame_body oid ch body) Pr) as [Hc [Ho [HV [Hg Hgs]]]].
-      { cbn [core_stmt]. apply core_go. } { right. exists [(x, CStore)]. cbn [occs]. rewrite occs_go. reflexivity. }
+      { cbn [core2_stmt]. apply core2_go. } { right. exists [(x, CStore)]. cbn [occs]. rewrite occs_go. reflexivity. }
       { cbn [frames_stmt]. rewrite frames_go. reflexivity. }
       destruct (pre_one _ _ _ _ Pr) as [_ [N [_ [Cv _]]]]. cbn [covers] in Cv.
       assert (HxV : In x V) by (apply N; left; reflexivity).
@@ -1012,7 +1085,7 @@ Section Sim.
     Proof. intros. unfold onames_l, onames. rewrite occs_l_cons, map_app. reflexivity. Qed.
 
     Lemma sub_pre : forall Sy V P l,
-      core_prog l = true -> incl (onames_l l) V -> okocc l -> covers_l (syms_of P) Sy l ->
+      core2_prog l = true -> incl (onames_l l) V -> okocc l -> covers_l (syms_of P) Sy l ->
       Forall gok (frames_list oid (Sy :: syms_of P) l) -> Pre Sy V P l.
     Proof. intros. constructor; auto. Qed.
 
@@ -1025,7 +1098,7 @@ Section Sim.
       - destruct (Pre_cons _ _ _ _ _ Pei) as [Ps Pr]. specialize (IH Pr).
         destruct s; try exact IH. cbn [f_go s_go]. fold (f_go (Sy :: syms_of P) fr st els r). fold (s_go env ss els r).
         destruct (pre_one _ _ _ _ Ps) as [C [N [O [Cv G]]]]. apply covers_if in Cv. destruct Cv as [Cv1 [Cv2 _]].
-        cbn [core_stmt] in C. rewrite !core_go in C. apply andb_true_iff in C. destruct C as [C _]. apply andb_true_iff in C. destruct C as [C _].
+        cbn [core2_stmt] in C. rewrite !core2_go in C. apply andb_true_iff in C. destruct C as [C _]. apply andb_true_iff in C. destruct C as [C _].
         unfold onames in N. cbn [occs] in N. rewrite !occs_go, !map_app, ld_fst in N.
         cbn [occs] in O. rewrite !occs_go in O. apply Forall_app in O. destruct O as [_ O]. apply Forall_app in O. destruct O as [O _].
         cbn [frames_stmt] in G. rewrite !frames_go in G. apply Forall_app in G. destruct G as [G _].
@@ -1047,7 +1120,7 @@ Section Sim.
     Proof.
       intros Sy V P fr st env ss t body elifs els I He Pr.
       destruct (pre_one _ _ _ _ Pr) as [C [N [O [Cv G]]]]. apply covers_if in Cv. destruct Cv as [Cv1 [Cv2 [Cv3 Cv4]]].
-      cbn [core_stmt] in C. rewrite !core_go in C. apply andb_true_iff in C. destruct C as [C C3]. apply andb_true_iff in C. destruct C as [C1 C2].
+      cbn [core2_stmt] in C. rewrite !core2_go in C. apply andb_true_iff in C. destruct C as [C C3]. apply andb_true_iff in C. destruct C as [C1 C2].
       unfold onames in N. cbn [occs] in N. rewrite !occs_go, !map_app, ld_fst in N.
       cbn [occs] in O. rewrite !occs_go in O. apply Forall_app in O. destruct O as [_ O]. apply Forall_app in O. destruct O as [O1 O].
       apply Forall_app in O. destruct O as [O2 O3].
@@ -1094,7 +1167,7 @@ Section Sim.
     Lemma iter_ok : forall Sy V P fr env tg body,
       let fs := (Sy, V) :: P in
       env_ok fr env -> In tg V -> tg <> n_loop -> incl (onames_l body) V ->
-      core_prog body = true -> okocc body ->
+      core2_prog body = true -> okocc body ->
       gok (mk_frame (syms_of fs) (loop_ps tg body) body :: syms_of fs) ->
       Forall gok (frames_list oid (mk_frame (syms_of fs) (loop_ps tg body) body :: syms_of fs) body) ->
       forall items idx st ss out, Inv fs st env ss ->
@@ -1180,7 +1253,7 @@ Section Sim.
     Proof.
       intros Sy V P fr st env ss tg it body els I He Pr.
       destruct (pre_one _ _ _ _ Pr) as [C [N [O [Cv G]]]]. cbn [covers] in Cv.
-      cbn [core_stmt] in C. rewrite !core_go in C. apply andb_true_iff in C. destruct C as [C1 C2].
+      cbn [core2_stmt] in C. rewrite !core2_go in C. apply andb_true_iff in C. destruct C as [C1 C2].
       unfold onames in N. cbn [occs map fst] in N. rewrite !occs_go, !map_app, ld_fst, app_nil_r in N.
       cbn [occs] in O. rewrite !occs_go, app_nil_r in O. inversion O as [|? ? Otg O']; subst.
       apply Forall_app in O'. destruct O' as [_ O']. apply Forall_app in O'. destruct O' as [O1 O2].
@@ -1229,24 +1302,632 @@ Section Sim.
       - rewrite IT. reflexivity.
     Qed.
 
+    (* ================================================================ with-targets *)
+    Definition f_bind (syms : list symbols) (ws : symbols) :=
+      fix bindall (bs : list (name * expr)) (st : fstate) : res fstate :=
+        match bs with
+        | [] => Ok st
+        | (x, e) :: r =>
+            do v <- eval (flk pynorm syms st) (f_heap st) e;
+            match find_ref (ws :: syms) x with
+            | None => Err EInternal
+            | Some id => bindall r (write_ref pynorm st id (Some v))
+            end
+        end.
+    Definition bstep (acc : scope) (xv : name * value) : scope := dset N.eqb (fst xv) (snd xv) acc.
+
+    Lemma fold_bstep_has : forall xs vs acc x, dhas N.eqb x acc = true ->
+      dhas N.eqb x (fold_left bstep (combine xs vs) acc) = true.
+    Proof.
+      induction xs as [|y r IH]; intros vs acc x H; [exact H|]. destruct vs as [|v vs]; [exact H|].
+      cbn [combine fold_left]. apply IH. unfold bstep; cbn [fst snd]. rewrite (dhas_dset N.eqb N.eqb_eq), H. apply orb_true_r.
+    Qed.
+    Lemma fold_bstep_bound : forall xs vs acc x, length vs = length xs -> In x xs ->
+      dget N.eqb x (fold_left bstep (combine xs vs) acc) <> None.
+    Proof.
+      induction xs as [|y r IH]; intros vs acc x L Hx; [contradiction|]. destruct vs as [|v vs]; [discriminate|].
+      cbn [combine fold_left]. cbn in L. destruct Hx as [->|Hx]; [|apply IH; [lia|exact Hx]].
+      assert (H : dhas N.eqb x (fold_left bstep (combine r vs) (bstep acc (x, v))) = true).
+      { apply fold_bstep_has. unfold bstep; cbn [fst snd]. rewrite (dhas_dset N.eqb N.eqb_eq), N.eqb_refl. reflexivity. }
+      unfold dhas in H. destruct (dget N.eqb x (fold_left bstep (combine r vs) (bstep acc (x, v)))); [discriminate|discriminate].
+    Qed.
+
+    Lemma bind_ok : forall Sy V P env ss ws,
+      let fs := (Sy, V) :: P in
+      (forall x, In x V0 -> True) ->
+      forall bs st1 acc,
+      Inv fs st1 env ss ->
+      (forall x, In x (map fst bs) -> dget N.eqb x (s_refs ws) = Some (length fs, x) /\ In x V0) ->
+      Forall (found (Sy :: syms_of P)) (exprs_names (map snd bs)) -> incl (exprs_names (map snd bs)) V ->
+      match f_bind (Sy :: syms_of P) ws bs st1 with
+      | Ok stn => exists vs, eval_list (slk d env ss) (s_heap ss) (map snd bs) = Ok vs /\ length vs = length bs /\
+                    same_misc st1 stn /\
+                    (forall id, fst id <> length fs -> rref stn id = rref st1 id) /\
+                    (forall y, In y V0 -> ~ In y (map fst bs) -> rref stn (length fs, y) = rref st1 (length fs, y)) /\
+                    (forall x v, dget N.eqb x (fold_left bstep (combine (map fst bs) vs) acc) = Some v ->
+                       (In x (map fst bs) /\ rref stn (length fs, x) = Some (Some v)) \/
+                       (~ In x (map fst bs) /\ dget N.eqb x acc = Some v))
+      | Err e => eval_list (slk d env ss) (s_heap ss) (map snd bs) = Err e
+      end.
+    Proof.
+      intros Sy V P env ss ws fs _. induction bs as [|[x e] r IH]; intros st1 acc I Href F N.
+      - cbn. exists []. split; [reflexivity|]. split; [reflexivity|]. split; [apply same_misc_refl|]. split; [auto|]. split; [auto|].
+        intros x v H. right. auto.
+      - cbn [f_bind map fst snd eval_list]. fold (f_bind (Sy :: syms_of P) ws).
+        unfold exprs_names in F, N. cbn [map snd flat_map] in F, N. apply Forall_app in F. destruct F as [F1 F2].
+        rewrite (eval_agree Sy V P st1 env ss e I F1); [|intros y Hy; apply N; apply in_or_app; left; exact Hy].
+        destruct (eval (slk d env ss) (s_heap ss) e) as [v|err]; cbn [bind]; [|reflexivity].
+        destruct (Href x (or_introl eq_refl)) as [Hx HxV]. cbn [find_ref]. rewrite Hx.
+        set (st2 := wref st1 (length fs, x) (Some v)).
+        assert (I2 : Inv fs st2 env ss) by (apply Inv_write_high; [exact I|cbn; lia]).
+        specialize (IH st2 (bstep acc (x, v)) I2).
+        assert (Href' : forall y, In y (map fst r) -> dget N.eqb y (s_refs ws) = Some (length fs, y) /\ In y V0).
+        { intros y Hy. apply Href. right. exact Hy. }
+        specialize (IH Href' F2). assert (N2 : incl (flat_map expr_names (map snd r)) V).
+        { intros y Hy. apply N. apply in_or_app. right. exact Hy. }
+        specialize (IH N2). fold fs in IH.
+        destruct (f_bind (Sy :: syms_of P) ws r st2) as [stn|err].
+        + destruct IH as [vs [E [L [M [A [B C]]]]]]. unfold exprs_names in E. rewrite E. cbn [bind]. exists (v :: vs).
+          split; [reflexivity|]. split; [cbn; lia|]. split; [eapply same_misc_trans; [apply same_misc_write|exact M]|].
+          split; [intros id Hid; rewrite (A id Hid); apply read_write_level; cbn [fst]; intros Ec; apply Hid; symmetry; exact Ec|]. split.
+          * intros y Hy Hn. eapply eq_trans; [apply (B y Hy); intros Hc; apply Hn; right; exact Hc|].
+            unfold st2. apply read_write_name; auto. intros ->. apply Hn. left. reflexivity.
+          * intros y w Hd. cbn [combine fold_left] in Hd. destruct (C y w Hd) as [[Hin Hr]|[Hnin Hacc]].
+            -- left. split; [right; exact Hin|exact Hr].
+            -- unfold bstep in Hacc; cbn [fst snd] in Hacc. rewrite (dget_dset N.eqb N.eqb_eq) in Hacc.
+               destruct (N.eqb_spec y x) as [->|Hne].
+               ++ injection Hacc as <-. left. split; [left; reflexivity|].
+                  eapply eq_trans; [apply (B x HxV Hnin)|]. unfold st2. apply read_write_same.
+               ++ right. split; [|exact Hacc]. intros [Hc|Hc]; [congruence|contradiction].
+        + unfold exprs_names in IH. rewrite IH. reflexivity.
+    Qed.
+
+    Lemma case_with : forall Sy V P fr st env ss binds body,
+      Inv ((Sy, V) :: P) st env ss -> env_ok fr env -> Pre Sy V P [SWith binds body] ->
+      R1 ((Sy, V) :: P) env
+         (let ws := frame_with oid (Sy :: syms_of P) (map fst binds) body in
+          do st1 <- enter_frame pynorm d st ws;
+          do st2 <- f_bind (Sy :: syms_of P) ws binds st1;
+          do (st3, o) <- fx pynorm priv d f (ws :: Sy :: syms_of P) fl_inner st2 body;
+          Ok (leave_frame pynorm st3 ws, o))
+         (do vs <- eval_list (slk d env ss) (s_heap ss) (map snd binds);
+          let '(i, ss1) := new_scope ss (fold_left (fun acc xv => dset N.eqb (fst xv) (snd xv) acc)
+                                                   (combine (map fst binds) vs) []) in
+          do (ss2, o) <- sx d f (i :: env) ss1 body;
+          Ok (ss2, o)).
+    Proof.
+      intros Sy V P fr st env ss binds body I He Pr.
+      destruct (body_facts Sy V P (SWith binds body) body (fun ch => frame_with oid ch (map fst binds) body) Pr) as [Hc [Ho [HV [Hg Hgs]]]].
+      { cbn [core2_stmt]. apply core2_go. }
+      { right. eexists. cbn [occs]. rewrite occs_go, app_assoc. reflexivity. }
+      { cbn [frames_stmt]. rewrite frames_go. reflexivity. }
+      destruct (pre_one _ _ _ _ Pr) as [_ [N [_ [Cv _]]]]. cbn [covers] in Cv.
+      unfold onames in N. cbn [occs] in N. rewrite occs_go, !map_app, ld_fst, map_map in N. cbn [fst] in N.
+      assert (HV0 : incl V V0). { destruct (i_wf _ _ _ _ I) as [_ [_ [H0 _]]]. exact H0. }
+      assert (Htg : incl (map fst binds) V). { intros y Hy. apply N. apply in_or_app. left. exact Hy. }
+      assert (Hval : incl (exprs_names (map snd binds)) V). { intros y Hy. apply N. apply in_or_app. right. apply in_or_app. left. exact Hy. }
+      cbv zeta. change (frame_with oid (Sy :: syms_of P) (map fst binds) body) with (mk_frame (syms_of ((Sy, V) :: P)) (map fst binds) body).
+      destruct (enter_ok2 ((Sy, V) :: P) st env ss (map fst binds) body I (proj1 (proj2 He))) as [st1 [E [M [A K]]]].
+      { intros y Hy. apply HV0. apply Htg. exact Hy. } { intros y Hy. apply HV0. apply HV. exact Hy. } { exact HV. } { exact Hg. }
+      rewrite E. cbn [bind].
+      assert (I1 : Inv ((Sy, V) :: P) st1 env ss).
+      { apply (Inv_ext _ st); [exact I|exact M|]. intros id Hid. apply A. lia. }
+      destruct (mk_frame_ok (syms_of ((Sy, V) :: P)) (map fst binds) body) as [WS [Lv0 [Hpr _]]].
+      assert (Lv : s_level (mk_frame (syms_of ((Sy, V) :: P)) (map fst binds) body) = length ((Sy, V) :: P)).
+      { rewrite Lv0. apply sym_new_level. apply I. }
+      pose proof (bind_ok Sy V P env ss (mk_frame (syms_of ((Sy, V) :: P)) (map fst binds) body) (fun _ _ => Logic.I) binds st1 [] I1) as B.
+      cbv zeta in B. change (syms_of ((Sy, V) :: P)) with (Sy :: syms_of P) in *.
+      assert (Href : forall x, In x (map fst binds) ->
+                dget N.eqb x (s_refs (mk_frame (Sy :: syms_of P) (map fst binds) body)) = Some (length ((Sy, V) :: P), x) /\ In x V0).
+      { intros x Hx. split; [|apply HV0; apply Htg; exact Hx]. rewrite <- Lv. apply (WF_ref _ _ _ x WS). apply Hpr. exact Hx. }
+      specialize (B Href Cv Hval).
+      destruct (f_bind (Sy :: syms_of P) (mk_frame (Sy :: syms_of P) (map fst binds) body) binds st1) as [stn|err].
+      - destruct B as [vs [Ev [L [Mn [An [Bn Cn]]]]]].
+        match goal with |- context [eval_list ?a ?b ?c] => replace (eval_list a b c) with (@Ok (list value) vs) by (symmetry; exact Ev) end.
+        cbn [bind]. unfold new_scope; cbn [fst snd].
+        change (fun (acc : list (name * value)) (xv : name * value) => dset N.eqb (fst xv) (snd xv) acc) with bstep.
+        assert (I2 : Inv ((mk_frame (Sy :: syms_of P) (map fst binds) body, onames_l body) :: (Sy, V) :: P) stn
+                         (length (s_scopes ss) :: env) (snd (new_scope ss (fold_left bstep (combine (map fst binds) vs) [])))).
+        { apply K; auto.
+          - intros x v Hx Hd. destruct (Cn x v Hd) as [[H1 H2]|[_ H2]]; [auto|discriminate].
+          - intros x Hx Hin. apply fold_bstep_bound; [rewrite map_length; exact L|exact Hin]. }
+        unfold new_scope in I2; cbn [snd] in I2.
+        assert (He1 : env_ok fl_inner (length (s_scopes ss) :: env)) by (apply (env_ok_push fr fl_inner env (s_scopes ss) He); [apply I|reflexivity]).
+        assert (Pb : Pre (mk_frame (Sy :: syms_of P) (map fst binds) body) (onames_l body) ((Sy, V) :: P) body).
+        { constructor; auto. - apply incl_refl. - apply (mk_frame_ok (Sy :: syms_of P) (map fst binds) body). }
+        pose proof (IHf _ _ _ fl_inner _ _ _ body I2 He1 Pb) as R. unfold R1 in R. change (syms_of ((Sy, V) :: P)) with (Sy :: syms_of P) in R.
+        destruct (fx pynorm priv d f (mk_frame (Sy :: syms_of P) (map fst binds) body :: Sy :: syms_of P) fl_inner stn body) as [[st3 o]|e].
+        + destruct R as [ss2 [E2 I3]].
+          match goal with |- context [sx d f ?e ?s0 body] => replace (sx d f e s0 body) with (@Ok (sstate * str) (ss2, o)) by (symmetry; exact E2) end.
+          cbn [bind]. exists ss2. split; [reflexivity|].
+          apply (leave_ok' ((Sy, V) :: P)). apply (Inv_tail _ _ _ _ _ _ _ I3).
+        + match goal with |- context [sx d f ?e0 ?s0 body] => replace (sx d f e0 s0 body) with (@Err (sstate * str) e) by (symmetry; exact R) end.
+          reflexivity.
+      - match goal with |- context [eval_list ?a ?b ?c] => replace (eval_list a b c) with (@Err (list value) err) by (symmetry; exact B) end.
+        reflexivity.
+    Qed.
+
+    (* ================================================================ loop filter *)
+    Lemma read_chain_app : forall below a chain k, (forall i, In i chain -> i < length below) ->
+      read_chain (below ++ [a]) chain k = read_chain below chain k.
+    Proof.
+      intros below a chain k. induction chain as [|i r IH]; intros H; cbn [read_chain]; [reflexivity|].
+      rewrite app_nth1; [|apply H; left; reflexivity]. rewrite IH; [reflexivity|]. intros j Hj. apply H. right. exact Hj.
+    Qed.
+    Lemma read_push : forall st l id, (forall i, In i (f_chain st) -> i < length (f_below st)) ->
+      rref (push_act st l (cur_id st :: f_chain st)) id =
+      match dget ident_eqb (kk id) l with Some v => Some v | None => rref st id end.
+    Proof.
+      intros st l id H. unfold read_ref, push_act, cur_id; cbn [f_loc f_below f_chain read_chain].
+      destruct (dget ident_eqb (kk id) l); [reflexivity|].
+      rewrite app_nth2; [|lia]. rewrite Nat.sub_diag. cbn [nth a_loc].
+      destruct (dget ident_eqb (kk id) (f_loc st)); [reflexivity|]. apply read_chain_app. exact H.
+    Qed.
+
+    Lemma onames_out : forall t, onames_l [SOut [t]] = expr_names t.
+    Proof. intros t. unfold onames_l. cbn [occs_l flat_map occs]. rewrite app_nil_r, ld_fst. unfold exprs_names. cbn [flat_map]. apply app_nil_r. Qed.
+    Lemma frame_for_test_eq : forall P tg t, frame_for_test P tg (Some t) = mk_frame P [tg] [SOut [t]].
+    Proof.
+      intros. unfold frame_for_test, an_for_test, mk_frame, sym_params. cbn [fold_left fsv_list fsv].
+      unfold exprs_names. cbn [flat_map]. rewrite app_nil_r. reflexivity.
+    Qed.
+    Definition res_only (s : symbols) : Prop := forall id l, In (id, l) (s_loads s) -> l = LParam \/ exists x, l = LResolve x.
+    Lemma res_only_loads : forall P xs s, res_only s -> res_only (sym_loads P s xs).
+    Proof.
+      unfold sym_loads. induction xs as [|x r IH]; intros s H; cbn [fold_left]; [exact H|]. apply IH.
+      unfold sym_load. destruct (find_ref (s :: P) x); [exact H|]. intros id l Hin. unfold define_ref in Hin; cbn [s_loads] in Hin.
+      apply (In_dset ident_eqb) in Hin. destruct Hin as [E|Hin]; [injection E as _ ->; right; eauto|apply (H id l Hin)].
+    Qed.
+    Lemma res_only_test : forall P tg t, res_only (mk_frame P [tg] [SOut [t]]).
+    Proof.
+      intros. rewrite <- frame_for_test_eq. unfold frame_for_test, an_for_test. apply res_only_loads.
+      intros id l Hin. unfold sym_param, define_ref, add_store, sym_new in Hin; cbn in Hin. destruct Hin as [E|[]]. injection E as _ ->. auto.
+    Qed.
+
+    (* the locals of the loop-filter function: only level-lvl keys, holding context values *)
+    Definition TL (lvl : nat) (ts : symbols) (tg : name) (tloc : locmap) : Prop :=
+      (forall id, fst id <> lvl -> dget ident_eqb (kk id) tloc = None) /\
+      (forall x, hasref ts x -> x <> tg -> exists ov, dget ident_eqb (kk (lvl, x)) tloc = Some ov /\ val_of ov = ctxv x).
+
+    Lemma flk_agree_rel : forall fs' st' env' scopes x,
+      wfchain fs' -> chain_rel (rref st') scopes fs' env' -> Forall (fun f0 => In x (snd f0)) fs' ->
+      found (syms_of fs') x -> flk pynorm (syms_of fs') st' x = Ok (slkv scopes env' x).
+    Proof.
+      intros fs' st' env' scopes x W C HV F.
+      destruct (lookup_agree fs' env' (rref st') scopes x W C HV) as [L1 _].
+      unfold flk. unfold found in F. destruct (find_ref (syms_of fs') x) as [id|]; [|contradiction].
+      destruct (L1 id eq_refl) as [ov [R1 R2]]. rewrite R1. destruct ov; cbn in R2; rewrite <- R2; reflexivity.
+    Qed.
+
+    Section Test.
+      Variables (Sy : symbols) (V : list name) (P : frames) (env : list nat) (tg : name) (t : expr).
+      Let fs := (Sy, V) :: P.
+      Let lvl := length fs.
+      Let ts := mk_frame (syms_of fs) [tg] [SOut [t]].
+      Hypothesis HtgV : In tg V.
+      Hypothesis HtV : incl (expr_names t) V.
+
+      Lemma ts_facts : forall st ss, Inv fs st env ss ->
+        WF [tg] (syms_of fs) ts /\ s_level ts = lvl /\ hasref ts tg /\
+        (forall x, hasref ts x -> x = tg \/ In x (expr_names t)) /\ incl V V0 /\
+        Forall (found (ts :: syms_of fs)) (expr_names t).
+      Proof.
+        intros st ss I. destruct (mk_frame_ok (syms_of fs) [tg] [SOut [t]]) as [WS [Lv0 [Hpr Cv]]]. fold ts in WS, Lv0, Hpr, Cv.
+        split; [exact WS|]. split; [rewrite Lv0; apply sym_new_level; apply I|]. split; [apply Hpr; left; reflexivity|].
+        split.
+        - intros x Hx. destruct (mk_frame_refs _ _ _ x Hx) as [[<-|[]]|H]; [auto|]. right. rewrite onames_out in H. exact H.
+        - split; [destruct (i_wf _ _ _ _ I) as [_ [_ [H0 _]]]; exact H0|].
+          cbn [covers_l covers] in Cv. destruct Cv as [Cv _]. unfold exprs_names in Cv. cbn [flat_map] in Cv. rewrite app_nil_r in Cv. exact Cv.
+      Qed.
+
+      (* one evaluation of the filter, for one item *)
+      Lemma test_ok : forall st ss tloc item,
+        Inv fs st env ss -> In 0 env -> TL lvl ts tg tloc ->
+        let stt := wref (push_act st tloc (cur_id st :: f_chain st)) (lvl, tg) (Some item) in
+        let sst := snd (new_scope ss [(tg, item)]) in
+        eval (flk pynorm (ts :: syms_of fs) stt) (f_heap stt) t = eval (slk d (length (s_scopes ss) :: env) sst) (s_heap sst) t /\
+        TL lvl ts tg (f_loc stt) /\ Inv fs (pop_act st stt) env ss.
+      Proof.
+        intros st ss tloc item I Hz [T2 T1] stt sst.
+        destruct (ts_facts st ss I) as [WS [Lv [Htg [Hrefs [HV0 Fd]]]]].
+        assert (Hrd : forall id, rref stt id = if ident_eqb (kk id) (kk (lvl, tg)) then Some (Some item)
+                                               else match dget ident_eqb (kk id) tloc with Some v => Some v | None => rref st id end).
+        { intros id. unfold stt. rewrite read_write. destruct (ident_eqb (kk id) (kk (lvl, tg))); [reflexivity|].
+          apply read_push. apply I. }
+        assert (HtgV0 : In tg V0) by (apply HV0; exact HtgV).
+        split; [|split].
+        - (* evaluation *)
+          assert (Wf' : wfchain ((ts, expr_names t) :: fs)).
+          { cbn [wfchain]. split; [exists [tg]; exact WS|]. split; [exact Lv|].
+            split; [intros y Hy; apply HV0; apply HtV; exact Hy|]. split; [exact HtV|apply I]. }
+          assert (Hold : forall i, In i env -> nth i (s_scopes ss ++ [[(tg, item)]]) [] = nth i (s_scopes ss) []).
+          { intros i Hi. apply nth_app_old. apply (i_valid _ _ _ _ I). exact Hi. }
+          assert (C' : chain_rel (rref stt) (s_scopes ss ++ [[(tg, item)]]) ((ts, expr_names t) :: fs) (length (s_scopes ss) :: env)).
+          { cbn [chain_rel]. rewrite nth_app_new. split; [split|].
+            - intros x v Hx Hd. cbn [dget] in Hd. destruct (N.eqb_spec x tg) as [->|Hne]; [|discriminate]. injection Hd as <-.
+              split; [exact Htg|]. rewrite Lv, Hrd, ident_eqb_refl. reflexivity.
+            - intros x Hx Hr Hd. cbn [dget] in Hd. destruct (N.eqb_spec x tg) as [->|Hne]; [discriminate|].
+              destruct (T1 x Hr Hne) as [ov [D1 D2]]. exists ov. split.
+              + rewrite Lv, Hrd. unfold lvl at 1. rewrite key_name; auto. destruct (N.eqb_spec x tg); [contradiction|]. rewrite D1. reflexivity.
+              + rewrite D2. destruct (WF_load [tg] _ ts x WS Hr) as [l [Dl L]]. unfold lok in L. cbn [nmem] in L.
+                destruct (N.eqb_spec x tg); [contradiction|]. cbn [orb] in L.
+                destruct (res_only_test (syms_of fs) tg t _ _ (dget_In ident_eqb ident_eqb_eq _ _ _ Dl)) as [->|[y ->]]; [contradiction|].
+                destruct L as [_ Fn].
+                destruct (lookup_agree fs env (rref st) (s_scopes ss) x (i_wf _ _ _ _ I) (i_rel _ _ _ _ I)) as [_ L2].
+                { apply wfchain_incl; [apply I|apply HtV; exact Hx]. }
+                rewrite (slkv_ext env (s_scopes ss) (s_scopes ss ++ [[(tg, item)]]) x Hold). unfold slkv. rewrite (L2 Fn). reflexivity.
+            - apply (chain_rel_scopes fs env _ (s_scopes ss)); [exact Hold|].
+              apply (chain_rel_ext fs env (rref st)); [apply I| |apply I]. intros id Hid. rewrite Hrd.
+              rewrite key_level; [|cbn [fst]; unfold lvl; lia]. rewrite T2; [reflexivity|unfold lvl; lia]. }
+          unfold sst, new_scope; cbn [snd s_heap s_scopes].
+          assert (Hh : f_heap stt = s_heap ss) by (unfold stt, write_ref, set_loc, push_act; cbn [f_heap]; apply I).
+          rewrite Hh. apply eval_ext. intros x Hx.
+          rewrite slk_slkv. cbn [s_scopes].
+          apply (flk_agree_rel ((ts, expr_names t) :: fs) stt (length (s_scopes ss) :: env) _ x Wf' C').
+          + apply wfchain_incl; [exact Wf'|exact Hx].
+          + rewrite Forall_forall in Fd. apply Fd. exact Hx.
+        - (* the function's locals afterwards *)
+          unfold stt, write_ref, set_loc, push_act; cbn [f_loc]. split.
+          + intros id Hid. rewrite (dget_dset ident_eqb ident_eqb_eq). rewrite key_level; [apply T2; exact Hid|cbn [fst]; congruence].
+          + intros x Hr Hne. destruct (T1 x Hr Hne) as [ov [D1 D2]]. exists ov. split; [|exact D2].
+            rewrite (dget_dset ident_eqb ident_eqb_eq). rewrite key_name; auto.
+            * destruct (N.eqb_spec x tg); [contradiction|exact D1].
+            * destruct (Hrefs x Hr) as [->|Hx]; [contradiction|]. apply HV0. apply HtV. exact Hx.
+        - apply (Inv_ext fs st); [exact I| |].
+          + unfold same_misc, pop_act, stt, write_ref, set_loc, push_act; cbn. auto.
+          + intros id _. reflexivity.
+      Qed.
+
+      (* starting the generator: enter_frame of the filter function *)
+      Lemma tact_ok : forall st ss, Inv fs st env ss -> In 0 env ->
+        exists st', enter_frame pynorm d (push_act st [] (cur_id st :: f_chain st)) ts = Ok st' /\
+                    TL lvl ts tg (f_loc st') /\ Inv fs (pop_act st st') env ss.
+      Proof.
+        intros st ss I Hz. destruct (ts_facts st ss I) as [WS [Lv [Htg [Hrefs [HV0 Fd]]]]].
+        set (stp := push_act st [] (cur_id st :: f_chain st)).
+        assert (Hp : forall id, rref stp id = rref st id).
+        { intros id. unfold stp. rewrite read_push; [reflexivity|apply I]. }
+        destruct (enter_loads_spec lvl (s_loads ts) stp (wf_nodup _ _ _ WS)) as [st' [E [M [A [B C]]]]].
+        { intros id l Hin. destruct (wf_keys _ _ _ WS id l Hin) as [x [-> [Hr L]]]. cbn [fst snd]. split; [exact Lv|].
+          split; [destruct (Hrefs x Hr) as [->|Hx]; [apply HV0; exact HtgV|apply HV0; apply HtV; exact Hx]|].
+          intros o ->. destruct (res_only_test (syms_of fs) tg t _ _ Hin) as [H|[y H]]; discriminate. }
+        exists st'. split; [exact E|].
+        (* reads of st' that miss the new locals fall through to st: compare with the dictionary *)
+        assert (Hloc : forall id, rref st' id = match dget ident_eqb (kk id) (f_loc st') with Some v => Some v | None => rref st id end).
+        { intros id. destruct M as [M1 [M2 _]]. unfold read_ref at 1. rewrite M1, M2.
+          destruct (dget ident_eqb (kk id) (f_loc st')); [reflexivity|].
+          unfold stp, push_act, cur_id; cbn [f_below f_chain read_chain]. rewrite app_nth2; [|lia]. rewrite Nat.sub_diag. cbn [nth a_loc].
+          unfold read_ref. destruct (dget ident_eqb (kk id) (f_loc st)); [reflexivity|]. apply read_chain_app. apply I. }
+        assert (Hcv : forall x, lookup_env (s_scopes ss) env x = None -> dget N.eqb x (f_cvars stp) = None).
+        { intros x Hn. unfold stp, push_act; cbn [f_cvars]. rewrite (i_cvars _ _ _ _ I). apply (lookup_env_none_in env _ x 0 Hn Hz). }
+        split; [split|].
+        - (* other levels: nothing written.  The dictionary is built from the empty one *)
+          intros id Hid.
+          assert (G : forall loads s0 s1, enter_loads pynorm d s0 loads = Ok s1 ->
+                      (forall i l, In (i, l) loads -> fst i = lvl) ->
+                      dget ident_eqb (kk id) (f_loc s0) = None -> dget ident_eqb (kk id) (f_loc s1) = None).
+          { induction loads as [|[tid l] r IHl]; intros s0 s1 E0 Hl H0; cbn [enter_loads] in E0.
+            - injection E0 as <-. exact H0.
+            - assert (Ht : fst tid = lvl) by (apply (Hl tid l); left; reflexivity).
+              assert (Hk : forall v s, dget ident_eqb (kk id) (f_loc s) = None -> dget ident_eqb (kk id) (f_loc (wref s tid v)) = None).
+              { intros v s Hs. unfold write_ref, set_loc; cbn [f_loc]. rewrite (dget_dset ident_eqb ident_eqb_eq).
+                rewrite key_level; [exact Hs|congruence]. }
+              assert (Hl' : forall i l0, In (i, l0) r -> fst i = lvl) by (intros i l0 Hin; apply (Hl i l0); right; exact Hin).
+              destruct l as [|x|o|].
+              + apply (IHl _ _ E0 Hl' H0).
+              + apply (IHl _ _ E0 Hl'). apply Hk. exact H0.
+              + destruct (rref s0 o); [|discriminate]. apply (IHl _ _ E0 Hl'). apply Hk. exact H0.
+              + apply (IHl _ _ E0 Hl'). apply Hk. exact H0. }
+          apply (G (s_loads ts) stp st' E); [|reflexivity].
+          intros i l Hin. destruct (wf_keys _ _ _ WS i l Hin) as [x [-> _]]. exact Lv.
+        - intros x Hr Hne. destruct (WF_load [tg] _ ts x WS Hr) as [l [Dl L]]. unfold lok in L. cbn [nmem] in L.
+          destruct (N.eqb_spec x tg); [contradiction|]. cbn [orb] in L.
+          pose proof (dget_In ident_eqb ident_eqb_eq _ _ _ Dl) as Hin.
+          destruct (res_only_test (syms_of fs) tg t _ _ Hin) as [->|[y ->]]; [contradiction|]. destruct L as [-> Fn].
+          pose proof (C _ _ Hin) as Hc. cbn [load_val] in Hc. rewrite Lv in Hc.
+          destruct (lookup_agree fs env (rref st) (s_scopes ss) x (i_wf _ _ _ _ I) (i_rel _ _ _ _ I)) as [_ L2].
+          { apply wfchain_incl; [apply I|]. destruct (Hrefs x Hr) as [->|Hx]; [contradiction|apply HtV; exact Hx]. }
+          (* the value was written into the function's own dictionary *)
+          assert (Gw : forall loads s0 s1, enter_loads pynorm d s0 loads = Ok s1 -> forall l0, In ((lvl, x), l0) loads -> l0 <> LParam ->
+                        dget ident_eqb (kk (lvl, x)) (f_loc s1) <> None \/ False).
+          { left. revert s0 s1 H H0 H1. induction loads as [|[tid l1] r IHl]; intros s0 s1 E0 Hin0 Hnp; [contradiction|].
+            assert (Keep : forall loads' s2 s3, enter_loads pynorm d s2 loads' = Ok s3 ->
+                      dget ident_eqb (kk (lvl, x)) (f_loc s2) <> None -> dget ident_eqb (kk (lvl, x)) (f_loc s3) <> None).
+            { induction loads' as [|[tid2 l2] r2 IH2]; intros s2 s3 E2 H2; cbn [enter_loads] in E2; [injection E2 as <-; exact H2|].
+              assert (Hk : forall v s, dget ident_eqb (kk (lvl, x)) (f_loc s) <> None -> dget ident_eqb (kk (lvl, x)) (f_loc (wref s tid2 v)) <> None).
+              { intros v s Hs. unfold write_ref, set_loc; cbn [f_loc]. rewrite (dget_dset ident_eqb ident_eqb_eq).
+                destruct (ident_eqb (kk (lvl, x)) (kk tid2)); [discriminate|exact Hs]. }
+              destruct l2 as [|x2|o2|]; [apply (IH2 _ _ E2 H2)|apply (IH2 _ _ E2); apply Hk; exact H2| |apply (IH2 _ _ E2); apply Hk; exact H2].
+              destruct (rref s2 o2); [|discriminate]. apply (IH2 _ _ E2). apply Hk. exact H2. }
+            cbn [enter_loads] in E0. destruct Hin0 as [Eq|Hin0].
+            - injection Eq as -> ->.
+              assert (Hw : forall v s, dget ident_eqb (kk (lvl, x)) (f_loc (wref s (lvl, x) v)) <> None).
+              { intros v s. unfold write_ref, set_loc; cbn [f_loc]. rewrite (dget_dset_same ident_eqb ident_eqb_eq). discriminate. }
+              destruct l0 as [|x0|o0|]; [contradiction|apply (Keep _ _ _ E0); apply Hw| |apply (Keep _ _ _ E0); apply Hw].
+              destruct (rref s0 o0); [|discriminate]. apply (Keep _ _ _ E0). apply Hw.
+            - destruct l1 as [|x1|o1|]; [apply (IHl _ _ E0 Hin0 Hnp)|apply (IHl _ _ E0 Hin0 Hnp)| |apply (IHl _ _ E0 Hin0 Hnp)].
+              destruct (rref s0 o1); [|discriminate]. apply (IHl _ _ E0 Hin0 Hnp). }
+          destruct (Gw (s_loads ts) stp st' E (LResolve x)) as [Gd|[]]; [rewrite <- Lv; exact Hin|discriminate|].
+          rewrite Hloc in Hc. destruct (dget ident_eqb (kk (lvl, x)) (f_loc st')) as [ov|]; [|contradiction].
+          exists ov. split; [reflexivity|]. injection Hc as ->. apply resolve_ctx. apply Hcv. apply L2. exact Fn.
+        - apply (Inv_ext fs st); [exact I| |intros id _; reflexivity].
+          destruct M as [M1 [M2 [M3 [M4 M5]]]]. unfold same_misc, pop_act, stp, push_act in *; cbn in *. auto.
+      Qed.
+    End Test.
+
+    Definition f_iter2 (syms : list symbols) (ls ts : symbols) (lvl : nat) (tg : name) (te : option expr) (ext : bool) (body : list stmt) :=
+      fix iter (items : list value) (idx : N) (st : fstate) (tloc : locmap) (out : str) : res (fstate * str * N) :=
+        match items with
+        | [] => Ok (st, out, idx)
+        | item :: more =>
+            do pass <- (match te with
+                        | None => Ok (st, tloc, true)
+                        | Some t =>
+                            let stt := write_ref pynorm (push_act st tloc (cur_id st :: f_chain st)) (lvl, tg) (Some item) in
+                            do tv <- eval (flk pynorm (ts :: syms) stt) (f_heap stt) t;
+                            Ok (pop_act st stt, f_loc stt, truthy tv)
+                        end);
+            let '(st, tloc, ok) := pass in
+            if ok then
+              let st := write_ref pynorm st (lvl, tg) (Some item) in
+              let st := if ext then write_ref pynorm st (lvl, n_loop) (Some (VLoop (idx + 1))) else st in
+              do st <- enter_frame pynorm d st ls;
+              do (st, o) <- fx pynorm priv d f (ls :: syms) (mkFl false true) st body;
+              iter more (idx + 1)%N st tloc (out ++ o)
+            else iter more idx st tloc out
+        end.
+    Definition s_iter2 (env : list nat) (tg : name) (te : option expr) (body : list stmt) :=
+      fix iter (items : list value) (idx : N) (st : sstate) (out : str) : res (sstate * str * N) :=
+        match items with
+        | [] => Ok (st, out, idx)
+        | item :: more =>
+            do ok <- (match te with
+                      | None => Ok true
+                      | Some t =>
+                          let '(i, stt) := new_scope st [(tg, item)] in
+                          do tv <- eval (slk d (i :: env) stt) (s_heap stt) t; Ok (truthy tv)
+                      end);
+            if ok then
+              let '(i, st) := new_scope st [(tg, item); (n_loop, VLoop (idx + 1))] in
+              do (st, o) <- sx d f (i :: env) st body;
+              iter more (idx + 1)%N st (out ++ o)
+            else iter more idx st out
+        end.
+
+    Definition RI (fs : frames) (env : list nat) (X : res (fstate * str * N)) (Y : res (sstate * str * N)) : Prop :=
+      match X with
+      | Ok (st', out', n) => exists ss', Y = Ok (ss', out', n) /\ Inv fs st' env ss'
+      | Err e => Y = Err e
+      end.
+
+    (* one iteration of the loop body *)
+    Lemma body_step : forall Sy V P fr env tg body
+      (K1 : fstate -> str -> res (fstate * str * N)) (K2 : sstate -> str -> res (sstate * str * N)) stp ss idx item,
+      let fs := (Sy, V) :: P in
+      env_ok fr env -> In tg V -> tg <> n_loop -> incl (onames_l body) V ->
+      core2_prog body = true -> okocc body ->
+      gok (mk_frame (syms_of fs) (loop_ps tg body) body :: syms_of fs) ->
+      Forall gok (frames_list oid (mk_frame (syms_of fs) (loop_ps tg body) body :: syms_of fs) body) ->
+      Inv fs stp env ss ->
+      (forall st4 ss2 o, Inv fs st4 env ss2 -> RI fs env (K1 st4 o) (K2 ss2 o)) ->
+      RI fs env
+        (let st := write_ref pynorm stp (length fs, tg) (Some item) in
+         let st := if extended_loop body then write_ref pynorm st (length fs, n_loop) (Some (VLoop (idx + 1))) else st in
+         do st <- enter_frame pynorm d st (mk_frame (syms_of fs) (loop_ps tg body) body);
+         do (st, o) <- fx pynorm priv d f (mk_frame (syms_of fs) (loop_ps tg body) body :: syms_of fs) (mkFl false true) st body;
+         K1 st o)
+        (let '(i, st) := new_scope ss [(tg, item); (n_loop, VLoop (idx + 1))] in
+         do (st, o) <- sx d f (i :: env) st body;
+         K2 st o).
+    Proof.
+      intros Sy V P fr env tg body K1 K2 stp ss idx item fs He HtgV Htl HV Hc Ho Hg Hgs Ip HK.
+      cbv zeta.
+      set (st1 := wref stp (length fs, tg) (Some item)).
+      set (st2 := if extended_loop body then wref st1 (length fs, n_loop) (Some (VLoop (idx + 1))) else st1).
+      assert (HV0 : incl V V0). { destruct (i_wf _ _ _ _ Ip) as [_ [_ [H0 _]]]. exact H0. }
+      assert (I2 : Inv fs st2 env ss).
+      { unfold st2, st1. destruct (extended_loop body); repeat apply Inv_write_high; auto. }
+      pose proof (block_ok Sy V P fr (mkFl false true) st2 env ss (loop_ps tg body) body
+                    [(tg, item); (n_loop, VLoop (idx + 1))] I2 He eq_refl) as B. cbv zeta in B.
+      fold fs in B. unfold new_scope in *. cbn [fst snd] in *.
+      assert (Hps : incl (loop_ps tg body) V0).
+      { unfold loop_ps. intros x Hx. apply in_app_or in Hx. destruct Hx as [Hx|[<-|[]]]; [|apply HV0; exact HtgV].
+        destruct (extended_loop body); [destruct Hx as [<-|[]]; exact Hloop0|contradiction]. }
+      specialize (B Hps HV).
+      assert (Hpar : forall x v, In x (onames_l body) -> dget N.eqb x [(tg, item); (n_loop, VLoop (idx + 1))] = Some v ->
+                      In x (loop_ps tg body) /\ rref st2 (length fs, x) = Some (Some v)).
+      { intros x v Hx Hd. cbn [dget] in Hd. destruct (N.eqb_spec x tg) as [->|Hne].
+        - injection Hd as <-. split; [unfold loop_ps; apply in_or_app; right; left; reflexivity|].
+          unfold st2, st1. destruct (extended_loop body).
+          + rewrite read_write_name; auto. apply read_write_same.
+          + apply read_write_same.
+        - destruct (N.eqb_spec x n_loop) as [->|Hnl]; [|discriminate]. injection Hd as <-.
+          pose proof (extended_true body Ho Hx) as Hext. unfold st2, loop_ps. rewrite Hext.
+          split; [apply in_or_app; left; left; reflexivity|apply read_write_same]. }
+      assert (Hb : forall x, In x (onames_l body) -> In x (loop_ps tg body) ->
+                     dget N.eqb x [(tg, item); (n_loop, VLoop (idx + 1))] <> None).
+      { intros x _ Hx. unfold loop_ps in Hx. apply in_app_or in Hx. cbn [dget].
+        destruct (N.eqb_spec x tg); [discriminate|]. destruct (N.eqb_spec x n_loop); [discriminate|].
+        destruct Hx as [Hx|[<-|[]]]; [|congruence]. destruct (extended_loop body); [destruct Hx as [<-|[]]; congruence|contradiction]. }
+      specialize (B Hpar Hb Hg Hc Ho Hgs).
+      destruct (enter_frame pynorm d st2 (mk_frame (syms_of fs) (loop_ps tg body) body)) as [st3|e]; [|contradiction].
+      cbn [bind].
+      destruct (fx pynorm priv d f (mk_frame (syms_of fs) (loop_ps tg body) body :: syms_of fs) (mkFl false true) st3 body) as [[st4 o]|e].
+      - destruct B as [ss2 [E I4]]. rewrite E. cbn [bind]. apply HK. apply (Inv_tail _ _ _ _ _ _ _ I4).
+      - rewrite B. reflexivity.
+    Qed.
+
+    Lemma iter_ok2 : forall Sy V P fr env tg te body ts,
+      let fs := (Sy, V) :: P in
+      (match te with Some t => ts = mk_frame (syms_of fs) [tg] [SOut [t]] | None => True end) ->
+      env_ok fr env -> In tg V -> tg <> n_loop -> incl (onames_l body) V ->
+      (match te with Some t => incl (expr_names t) V | None => True end) ->
+      core2_prog body = true -> okocc body ->
+      gok (mk_frame (syms_of fs) (loop_ps tg body) body :: syms_of fs) ->
+      Forall gok (frames_list oid (mk_frame (syms_of fs) (loop_ps tg body) body :: syms_of fs) body) ->
+      forall items idx st ss tloc out, Inv fs st env ss ->
+      (match te with Some _ => TL (length fs) ts tg tloc | None => True end) ->
+      RI fs env
+        (f_iter2 (syms_of fs) (mk_frame (syms_of fs) (loop_ps tg body) body) ts (length fs) tg te (extended_loop body) body items idx st tloc out)
+        (s_iter2 env tg te body items idx ss out).
+    Proof.
+      intros Sy V P fr env tg te body ts fs Hts He HtgV Htl HV Hte Hc Ho Hg Hgs.
+      induction items as [|item more IH]; intros idx st ss tloc out I HT.
+      - cbn. exists ss. auto.
+      - destruct te as [t|].
+        + subst ts. set (ts := mk_frame (syms_of fs) [tg] [SOut [t]]) in *. cbn [f_iter2 s_iter2].
+          fold (f_iter2 (syms_of fs) (mk_frame (syms_of fs) (loop_ps tg body) body) ts (length fs) tg (Some t) (extended_loop body) body).
+          fold (s_iter2 env tg (Some t) body).
+          destruct (test_ok Sy V P env tg t HtgV Hte st ss tloc item I (proj1 (proj2 He)) HT) as [Ev [HT' I']].
+          cbv zeta in Ev, HT', I'. cbv zeta. unfold new_scope in *; cbn [fst snd] in *. fold fs ts in Ev, HT', I'.
+          match goal with |- RI _ _ _ (bind (bind ?Z _) _) =>
+            match goal with |- context [eval (flk pynorm ?sy ?stt) ?h t] =>
+              replace (eval (flk pynorm sy stt) h t) with Z by (symmetry; exact Ev) end;
+            destruct Z as [tv|e] end; cbn [bind s_heap]; [|reflexivity].
+          destruct (truthy tv).
+          * apply (body_step Sy V P fr env tg body
+                     (fun st4 o => f_iter2 (syms_of fs) (mk_frame (syms_of fs) (loop_ps tg body) body) ts (length fs) tg (Some t) (extended_loop body) body more (idx + 1)%N st4 _ (out ++ o))
+                     (fun ss2 o => s_iter2 env tg (Some t) body more (idx + 1)%N ss2 (out ++ o))); auto;
+              try (intros st4 ss2 o I4; apply IH; [exact I4|exact HT']).
+          * apply IH; [exact I'|exact HT'].
+        + cbn [f_iter2 s_iter2 bind].
+          fold (f_iter2 (syms_of fs) (mk_frame (syms_of fs) (loop_ps tg body) body) ts (length fs) tg None (extended_loop body) body).
+          fold (s_iter2 env tg None body).
+          apply (body_step Sy V P fr env tg body
+                   (fun st4 o => f_iter2 (syms_of fs) (mk_frame (syms_of fs) (loop_ps tg body) body) ts (length fs) tg None (extended_loop body) body more (idx + 1)%N st4 tloc (out ++ o))
+                   (fun ss2 o => s_iter2 env tg None body more (idx + 1)%N ss2 (out ++ o))); auto;
+            try (intros st4 ss2 o I4; apply IH; [exact I4|exact Logic.I]).
+    Qed.
+
+    Lemma case_for2 : forall Sy V P fr st env ss tg it te body els,
+      Inv ((Sy, V) :: P) st env ss -> env_ok fr env -> Pre Sy V P [SFor tg it te body els] ->
+      R1 ((Sy, V) :: P) env
+         (let lvl := S (s_level Sy) in
+          let ls := frame_for_body oid (Sy :: syms_of P) tg body in
+          do v <- eval (flk pynorm (Sy :: syms_of P) st) (f_heap st) it;
+          let ts := frame_for_test (Sy :: syms_of P) tg te in
+          do tact <- (match te with
+                      | None => Ok (st, [])
+                      | Some _ => do st' <- enter_frame pynorm d (push_act st [] (cur_id st :: f_chain st)) ts;
+                                  Ok (pop_act st st', f_loc st')
+                      end);
+          let '(sta, tloc) := tact in
+          let st0 := if extended_loop body then wref sta (lvl, n_loop) None else sta in
+          do items <- iter_items v;
+          do r <- f_iter2 (Sy :: syms_of P) ls ts lvl tg te (extended_loop body) body items 0%N st0 tloc [];
+          let '(st1, out, n) := r in
+          let st2 := leave_frame pynorm st1 ls in
+          match els with
+          | [] => Ok (st2, out)
+          | _ :: _ =>
+              if N.eqb n 0 then
+                let es := frame_for_else oid (Sy :: syms_of P) els in
+                do st3 <- enter_frame pynorm d st2 es;
+                do (st4, o) <- fx pynorm priv d f (es :: Sy :: syms_of P) fl_inner st3 els;
+                Ok (leave_frame pynorm st4 es, out ++ o)
+              else Ok (st2, out)
+          end)
+         (do v <- eval (slk d env ss) (s_heap ss) it;
+          do items <- iter_items v;
+          do r <- s_iter2 env tg te body items 0%N ss [];
+          let '(ss1, out, n) := r in
+          match els with
+          | [] => Ok (ss1, out)
+          | _ :: _ =>
+              if N.eqb n 0 then
+                let '(i, ss2) := new_scope ss1 [] in
+                do (ss3, o) <- sx d f (i :: env) ss2 els;
+                Ok (ss3, out ++ o)
+              else Ok (ss1, out)
+          end).
+    Proof.
+      intros Sy V P fr st env ss tg it te body els I He Pr.
+      destruct (pre_one _ _ _ _ Pr) as [C [N [O [Cv G]]]]. cbn [covers] in Cv.
+      cbn [core2_stmt] in C. rewrite !core2_go in C. apply andb_true_iff in C. destruct C as [C1 C2].
+      unfold onames in N. cbn [occs map fst] in N. rewrite !occs_go, !map_app, ld_fst in N.
+      cbn [occs] in O. rewrite !occs_go in O. inversion O as [|? ? Otg O']; subst.
+      apply Forall_app in O'. destruct O' as [_ O']. apply Forall_app in O'. destruct O' as [O1 O'].
+      apply Forall_app in O'. destruct O' as [O2 _].
+      cbn [frames_stmt] in G. rewrite !frames_go in G.
+      apply Forall_app in G. destruct G as [_ G]. cbn [app] in G. inversion G as [|? ? Gb G']; subst.
+      apply Forall_app in G'. destruct G' as [Gbs Ge].
+      assert (Lv : s_level Sy = length P). { destruct (i_wf _ _ _ _ I) as [_ [Lv _]]. exact Lv. }
+      assert (HtgV : In tg V) by (apply N; left; reflexivity).
+      assert (Htl : tg <> n_loop). { intros ->. unfold occ_ok in Otg. cbn in Otg. discriminate. }
+      assert (HVb : incl (onames_l body) V).
+      { intros y Hy. apply N. right. apply in_or_app. right. apply in_or_app. left. exact Hy. }
+      assert (HVe : incl (onames_l els) V).
+      { intros y Hy. apply N. right. apply in_or_app. right. apply in_or_app. right. apply in_or_app. left. exact Hy. }
+      assert (Hte : match te with Some t => incl (expr_names t) V | None => True end).
+      { destruct te as [t|]; [|trivial]. intros y Hy. apply N. right. apply in_or_app. right. apply in_or_app. right. apply in_or_app. right.
+        rewrite ld_fst. exact Hy. }
+      cbv zeta. rewrite (eval_agree Sy V P st env ss it I Cv); [|intros y Hy; apply N; right; apply in_or_app; left; exact Hy].
+      destruct (eval (slk d env ss) (s_heap ss) it) as [v|e]; cbn [bind]; [|reflexivity].
+      rewrite frame_for_body_eq in *. rewrite Lv.
+      (* the filter function *)
+      assert (Tact : exists sta tloc,
+                (match te with
+                 | None => Ok (st, [])
+                 | Some _ => do st' <- enter_frame pynorm d (push_act st [] (cur_id st :: f_chain st)) (frame_for_test (Sy :: syms_of P) tg te);
+                             Ok (pop_act st st', f_loc st')
+                 end) = Ok (sta, tloc) /\ Inv ((Sy, V) :: P) sta env ss /\
+                (match te with Some _ => TL (length ((Sy, V) :: P)) (frame_for_test (Sy :: syms_of P) tg te) tg tloc | None => True end)).
+      { destruct te as [t|]; [|exists st, []; auto].
+        rewrite frame_for_test_eq.
+        destruct (tact_ok Sy V P env tg t HtgV Hte st ss I (proj1 (proj2 He))) as [st' [E [HT I']]].
+        change (syms_of ((Sy, V) :: P)) with (Sy :: syms_of P) in *. rewrite E. cbn [bind]. eexists _, _. split; [reflexivity|]. split; [exact I'|exact HT]. }
+      destruct Tact as [sta [tloc [Et [Ia HT]]]]. rewrite Et. cbn [bind].
+      destruct (iter_items v) as [items|e]; cbn [bind]; [|reflexivity].
+      set (st0 := if extended_loop body then wref sta (S (length P), n_loop) None else sta).
+      assert (I0 : Inv ((Sy, V) :: P) st0 env ss).
+      { unfold st0. destruct (extended_loop body); [apply Inv_write_high; [exact Ia|cbn; lia]|exact Ia]. }
+      pose proof (iter_ok2 Sy V P fr env tg te body (frame_for_test (Sy :: syms_of P) tg te)) as IT. cbv zeta in IT.
+      assert (Hts : match te with Some t => frame_for_test (Sy :: syms_of P) tg te = mk_frame (syms_of ((Sy, V) :: P)) [tg] [SOut [t]] | None => True end).
+      { destruct te as [t|]; [apply frame_for_test_eq|trivial]. }
+      specialize (IT Hts He HtgV Htl HVb Hte C1 O1 Gb Gbs items 0%N st0 ss tloc [] I0 HT).
+      change (syms_of ((Sy, V) :: P)) with (Sy :: syms_of P) in IT. cbn [length] in IT. unfold RI in IT.
+      destruct (f_iter2 (Sy :: syms_of P) (mk_frame (Sy :: syms_of P) (loop_ps tg body) body) (frame_for_test (Sy :: syms_of P) tg te) (S (length P)) tg te
+                  (extended_loop body) body items 0%N st0 tloc []) as [[[st1 out] n]|e].
+      - destruct IT as [ss1 [E I1]]. rewrite E. cbn [bind].
+        pose proof (leave_ok' ((Sy, V) :: P) st1 env ss1 (loop_ps tg body) body I1) as I2.
+        change (syms_of ((Sy, V) :: P)) with (Sy :: syms_of P) in I2.
+        destruct els as [|e0 els']; [exists ss1; auto|].
+        destruct (N.eqb n 0); [|exists ss1; auto].
+        set (els := e0 :: els') in *.
+        assert (Hp0 : forall (x : name) (v : value), In x (onames_l els) -> dget N.eqb x (@nil (name * value)) = Some v ->
+                        In x [] /\ rref (leave_frame pynorm st1 (mk_frame (Sy :: syms_of P) (loop_ps tg body) body)) (length ((Sy, V) :: P), x) = Some (Some v)) by (intros x v0 _ H; discriminate).
+        assert (Hb0 : forall x : name, In x (onames_l els) -> In x [] -> dget N.eqb x (@nil (name * value)) <> None) by (intros x _ []).
+        assert (Gel : gok (mk_frame (Sy :: syms_of P) [] els :: Sy :: syms_of P) /\
+                      Forall gok (frames_list oid (mk_frame (Sy :: syms_of P) [] els :: Sy :: syms_of P) els)).
+        { unfold els in *. inversion Ge as [|? ? Ge1 Ge2]; subst. split; [exact Ge1|exact Ge2]. }
+        pose proof (block_ok Sy V P fr fl_inner _ env ss1 [] els [] I2 He eq_refl (incl_nil_l _) HVe Hp0 Hb0 (proj1 Gel) C2 O2 (proj2 Gel)) as B.
+        cbv zeta in B. cbv zeta. unfold new_scope in *; cbn [fst snd] in *.
+        change (frame_for_else oid (Sy :: syms_of P) els) with (mk_frame (syms_of ((Sy, V) :: P)) [] els).
+        destruct (enter_frame pynorm d _ (mk_frame (syms_of ((Sy, V) :: P)) [] els)) as [st3|e]; [|contradiction].
+        cbn [bind]. change (syms_of ((Sy, V) :: P)) with (Sy :: syms_of P) in *.
+        destruct (fx pynorm priv d f (mk_frame (Sy :: syms_of P) [] els :: Sy :: syms_of P) fl_inner st3 els) as [[st4 o]|e].
+        + destruct B as [ss3 [E3 I4]]. rewrite E3. cbn [bind]. exists ss3. split; [reflexivity|].
+          apply (leave_ok' ((Sy, V) :: P)). apply (Inv_tail _ _ _ _ _ _ _ I4).
+        + rewrite B. reflexivity.
+      - rewrite IT. reflexivity.
+    Qed.
+
     Lemma step_ok : forall Sy V P fr st env ss s rest,
       Inv ((Sy, V) :: P) st env ss -> env_ok fr env -> Pre Sy V P (s :: rest) ->
       R1 ((Sy, V) :: P) env (fx pynorm priv d (S f) (Sy :: syms_of P) fr st (s :: rest))
                             (sx d (S f) env ss (s :: rest)).
     Proof.
       intros Sy V P fr st env ss s rest I He Pr. destruct (Pre_cons _ _ _ _ _ Pr) as [Ps Prest].
-      assert (Hcore : core_stmt s = true) by (apply (pre_one _ _ _ _ Ps)).
+      assert (Hcore : core2_stmt s = true) by (apply (pre_one _ _ _ _ Ps)).
       destruct s as [es|t b ei el|tg it te b el|x e|x a e|x kvs|x b|bs b|k b|m ps b|g args|ps g args b].
       - cbn [fx sx]. apply R1_seq; [|intros st1 ss1 I1; apply IHf; auto]. apply case_out; auto.
       - cbn [fx sx]. apply R1_seq; [|intros st1 ss1 I1; apply IHf; auto]. apply case_if; auto.
-      - destruct te as [t|]; [cbn in Hcore; discriminate|].
-        cbn [fx sx]. apply R1_seq; [|intros st1 ss1 I1; apply IHf; auto]. apply (case_for Sy V P fr); auto.
+      - cbn [fx sx]. apply R1_seq; [|intros st1 ss1 I1; apply IHf; auto]. apply (case_for2 Sy V P fr); auto.
       - cbn [fx sx]. apply R1_seq; [|intros st1 ss1 I1; apply IHf; auto]. apply case_set; auto.
       - cbn [fx sx]. apply R1_seq; [|intros st1 ss1 I1; apply IHf; auto]. apply case_seta; auto.
       - cbn [fx sx]. apply R1_seq; [|intros st1 ss1 I1; apply IHf; auto]. apply case_nsnew; auto.
       - cbn [fx sx]. apply R1_seq; [|intros st1 ss1 I1; apply IHf; auto]. apply (case_setb Sy V P fr); auto.
-      - destruct bs as [|b0 bs]; [|cbn in Hcore; discriminate].
-        cbn [fx sx]. apply R1_seq; [|intros st1 ss1 I1; apply IHf; auto]. apply (case_with0 Sy V P fr); auto.
+      - cbn [fx sx]. apply R1_seq; [|intros st1 ss1 I1; apply IHf; auto]. apply (case_with Sy V P fr); auto.
       - cbn [fx sx]. apply R1_seq; [|intros st1 ss1 I1; apply IHf; auto]. apply (case_filt Sy V P fr); auto.
       - cbn in Hcore. discriminate.
       - cbn in Hcore. discriminate.
@@ -1279,7 +1960,7 @@ Section Sim.
   Qed.
 
   Theorem core_render_agree : forall fuel p,
-    core_prog p = true -> okocc p -> incl (onames_l p) V0 -> Forall gok (frames_of oid p) ->
+    core2_prog p = true -> okocc p -> incl (onames_l p) V0 -> Forall gok (frames_of oid p) ->
     frender pynorm priv d fuel p = srender priv d fuel p.
   Proof.
     intros fuel p Hc Ho HV Hg. unfold frender, frender_st, srender.
@@ -1287,7 +1968,7 @@ Section Sim.
     unfold frames_of in Hg. inversion Hg as [|? ? G1 G2]; subst.
     rewrite frame_root_eq in *. rewrite (root_ps_nil p Ho) in *.
     assert (I0 : Inv [] f_init [] (mkS [] [])).
-    { constructor; cbn; auto. intros i []. constructor. }
+    { constructor; cbn; auto; try (intros i []). constructor. }
     assert (Hz0 : In 0 (@nil nat) \/ (@nil nat = [] /\ s_scopes (mkS [] []) = [] /\ @nil (name * value) = [] /\
                                         f_cvars f_init = [] /\ f_exported f_init = [])) by (right; cbn; auto).
     assert (Hp0 : forall (x : name) (v : value), In x (onames_l p) -> dget N.eqb x (@nil (name * value)) = Some v ->
